@@ -340,11 +340,66 @@ def _refuted(a, Kb):
     return False
 
 
+def _infeasible_edges(f, tt, assume, K, ses_nonnull=False):
+    """CFG edges that cannot be taken under the assumptions: contradicted by the constants assumed, refuted by K together with
+    what dominates them, or conditioned on a boolean flag (kept in a local) that cannot have the tested value because every
+    edge that would give it that value is itself infeasible.  Fixpoint."""
+    from .ir import out_edges, cond_atoms, NEG
+    removed = set(contradicted_edges(f, tt, assume)) if assume else set()
+    base = set([('cmp', 'ne', ('param', 0), ('const', 0)), ('cmp', 'ne', ('param', 1), ('const', 0))]) if ses_nonnull else set()
+
+    def impossible(atom, reach, depth=0):
+        """(phi pred c) cannot hold: no incoming edge of the phi can deliver such a value"""
+        a = norm_atom(atom)
+        if depth > 4 or a[0] != 'cmp' or a[1] not in ('eq', 'ne') or a[2][0] != 'phi' or a[3][0] != 'const':
+            return False
+        phi = f.insts.get(a[2][1])
+        if phi is None or phi.op != 'phi' or phi.block.loop is not None:
+            return False
+        c = a[3][1]
+        for bid, v in phi.incoming:
+            if (bid, phi.block.id) in removed or bid not in reach:
+                continue
+            kv = const_of(v)
+            if kv is not None:
+                if (kv == c) == (a[1] == 'eq'):
+                    return False
+                continue
+            tv = tt.term(v)
+            pb = f.bmap[bid]
+            ea = list(atoms_at(f, tt, pb))
+            for s2, lab in out_edges(pb):
+                if s2 is phi.block and lab is not None and lab[0] == 'br':
+                    ea.extend(cond_atoms(tt, lab[1], lab[2]))
+            if has_atom(ea, NEG[a[1]], tv, ('const', c)):
+                continue
+            if impossible(('cmp', a[1], tv, ('const', c)), reach, depth + 1):
+                continue
+            return False
+        return True
+    changed = True
+    while changed:
+        changed = False
+        reach = f.reachable(f.entry, removed=removed)
+        for b in f.blocks:
+            if b.id not in reach:
+                continue
+            for s2, lab in out_edges(b):
+                if lab is None or lab[0] != 'br' or (b.id, s2.id) in removed:
+                    continue
+                atoms = cond_atoms(tt, lab[1], lab[2])
+                Kb = set(K) | base | set(norm_atom(x) for x in atoms_at(f, tt, b) if x[0] == 'cmp')
+                if any(_refuted(a, Kb) or impossible(a, reach) for a in atoms):
+                    removed.add((b.id, s2.id))
+                    changed = True
+    return removed
+
+
 def _reject_edges(prog, f, tt, assume, K, ses_nonnull=False):
-    """error-only edges of f that are neither refuted under K (+ what dominates them) nor allocation-failure edges"""
+    """error-only edges of f that are neither infeasible under K nor allocation-failure edges"""
     from .ir import out_edges, cond_atoms
     from .rules_decode import edge_is_error, nonerror_returns, subst_params
-    removed = set(contradicted_edges(f, tt, assume)) if assume else set()
+    removed = _infeasible_edges(f, tt, assume, K, ses_nonnull)
     reach = f.reachable(f.entry, removed=removed)
     out = []
     for b in f.blocks:
@@ -364,12 +419,6 @@ def _reject_edges(prog, f, tt, assume, K, ses_nonnull=False):
             Kb = set(K) | set(norm_atom(x) for x in atoms_at(f, tt, b) if x[0] == 'cmp')
             if ses_nonnull:
                 Kb |= set([('cmp', 'ne', ('param', 0), ('const', 0)), ('cmp', 'ne', ('param', 1), ('const', 0))])
-            if any(_refuted(a, Kb) for a in atoms):
-                continue
-            if edge_is_error(prog, f, tt, b, lab):
-                # allocation failure, or failure status of a callee that fails only on allocation failure
-                if _callee_failure_ok(prog, f, tt, atoms, Kb):
-                    continue
             if _callee_failure_ok(prog, f, tt, atoms, Kb):
                 continue
             out.append((b.term(), ' and '.join('%s %s %s' % (show(a[2])[:40], a[1], show(a[3])[:30]) for a in atoms)))
